@@ -8,6 +8,7 @@ FixedPoint helper class is cross-checked against the same oracle on the same pai
 import itertools
 
 import py4hw
+from mc import core
 from py4hw.helper import FixedPoint
 
 from mc import comb
@@ -174,7 +175,7 @@ def _run_config(d):
         try:
             return _resig(comb.run_comb(dd, build, ref, 'C14', alphabets='corner' if dd.get('corner') else None), dd)
         except Exception as e:      # accepted by the constructor, raises while being simulated
-            py4hw.Wire.prepared = []
+            core.reset_prepared()
             return {'configs': 1, 'evaluations': 1, 'distinct_nontrivial': 0, 'vacuous_ok': True, 'distinct_outcomes': 0,
                     'samples': [], 'raised': 1,
                     'violations': [{'sig': 'C14:%s:%s:raises:%s' % (dd['block'], _klass(dd), type(e).__name__),
@@ -276,7 +277,7 @@ def replay(v):
     try:
         out = comb.replay_comb(v, build, ref)
     except Exception as e:
-        py4hw.Wire.prepared = []
+        core.reset_prepared()
         return {'config': d, 'raises': repr(e)[:200], 'violates': True}
     if out['violates'] and d['block'] == 'FixedPointMult':
         alt = comb.replay_comb(dict(v, shard=dict(d, reading='toward_zero')), build, ref)
